@@ -6,3 +6,9 @@ import DSymVerif.Props.C11
 #print axioms DSymVerif.C11.coset_representative_spec
 #print axioms DSymVerif.C11.join_inverse_consistent
 #print axioms DSymVerif.C11.scan_and_connect_deduction
+#print axioms DSymVerif.C11.validTable_iff_valid
+#print axioms DSymVerif.C11.merge_preserves
+#print axioms DSymVerif.C11.invariant_consequences
+#print axioms DSymVerif.C11.compact_valid
+#print axioms DSymVerif.C11.coset_table_valid_partial
+#print axioms DSymVerif.C11.rows_multiple
